@@ -62,9 +62,9 @@ var c04Ref = []struct {
 type opGuard struct {
 	fn           *ast.FuncDecl
 	src          *ast.FuncDecl // the function whose body holds the guard (a generic level helper, or fn itself)
-	toks         []string // literals
-	signed       bool     // isSignedNumberToken in the condition
-	kind         string   // for | if | case
+	toks         []string      // literals
+	signed       bool          // isSignedNumberToken in the condition
+	kind         string        // for | if | case
 	pos          token.Pos
 	rights       []*types.Func
 	rightPos     []token.Pos
